@@ -443,8 +443,12 @@ char *FUNC(generate)(jwt_common_t *__cmd)
 		return NULL;
 
 	jwt = jwt_malloc(sizeof(*jwt));
-	if (jwt == NULL)
-		return NULL; // LCOV_EXCL_LINE
+	if (jwt == NULL) {
+		// LCOV_EXCL_START
+		jwt_write_error(__cmd, "Error allocating memory");
+		return NULL;
+		// LCOV_EXCL_STOP
+	}
 
 	memset(jwt, 0, sizeof(*jwt));
 
